@@ -454,6 +454,8 @@ class Facts:
         self.impls = []
         self.fns = {}
         self.moved = {}       # actual path -> canonical path of items that live in another module than on the pinned tree
+        self.renamed = {}
+        self.new_fns = set()
         for fn in sorted(os.listdir(directory)):
             if not fn.endswith('.%s.json' % cfg):
                 continue
@@ -463,6 +465,16 @@ class Facts:
             text2 = self._canonicalise(text, d)
             if text2 is not text:
                 d = json.loads(text2)
+            # renamed private items get their reference names back; functions without a counterpart on the pinned tree are
+            # remembered so that they can be inlined into their callers (normalize.py)
+            import normalize
+            ren, fld, var, new_fns = normalize.plan(d)
+            if ren:
+                d = json.loads(normalize.apply_text(text2, ren))
+                self.renamed.update(ren)
+                ren2, fld, var, new_fns = normalize.plan(d)
+            normalize.apply_struct(d, fld, var)
+            self.new_fns |= new_fns
             cr = d['crate']
             self.crates[cr] = d
             for bd in d['bodies']:
@@ -478,6 +490,26 @@ class Facts:
                 f_['crate'] = cr
                 self.fns[strip_generics(f_['def'])] = f_
         self._children = None
+        if self.new_fns:
+            self._inline_new_helpers()
+
+    def _inline_new_helpers(self):
+        """a synchronous function that has no counterpart on the pinned tree (an extracted helper) is inlined into its callers:
+        rules written against one body keep seeing the whole mechanism"""
+        import inline
+        new = set(self.new_fns)
+        for defp, b in list(self.bodies.items()):
+            if b.d['promoted']:
+                continue
+            if not any(t.get('callee') and strip_generics(t.get('resolved') or t['callee']) in new for _i, t in b.calls()):
+                continue
+            try:
+                nb = inline.inline_calls(self, b, should_inline=lambda cal, t, depth: cal.name in new, max_depth=4)
+            except Exception:
+                continue
+            self.bodies[defp] = nb
+            lst = self.by_name.get(b.name, [])
+            self.by_name[b.name] = [nb if x is b else x for x in lst]
 
     _CANON = None
 
